@@ -328,6 +328,7 @@ func sortStringsByName(a []string) {
 // GenTopLevel: the progen generator used at top level: helper declarations, then statements
 func GenTopLevel(r *RNG, depth int) (stmts []string, globals []string, feat map[string]bool) {
 	g := &PG{r: r, budget: 30, feat: map[string]bool{}}
+	g.w("func idx(k int) int {\n\tprintln(\"idx\", k)\n\treturn k %% 3\n}\n")
 	g.w("const KA = 7\n")
 	g.w("const KB = KA*2 + 1\n")
 	g.w("var fuel = 80\n")
